@@ -17,10 +17,30 @@ EXPLANATION = (
 PRINT_CALLS = ('cfg_indent', 'cfg_print_quoted', 'cfg_print_pff_indent', 'cfg_opt_print_pff_indent', 'cfg_opt_nprint_var', 'indirect:')
 
 
+def _shown_absent(p, val, b):
+    """the path has shown that the string `val` does not contain the byte b: strchr(val, b) == NULL, strpbrk(val, set) == NULL with b in
+    set, or the byte at strcspn(val, set) is the terminator with b in set"""
+    for e in p.events:
+        if e.kind != 'call' or not e.args or sym.norm(outmodel._strip(e.args[0])) != val:
+            continue
+        if e.name in ('strchr', 'memchr') and len(e.args) > 1 and sym.is_const(e.args[1]) and (e.args[1][1] & 0xff) == b:
+            if any((lambda na: na is not None and na[0] == e.res and na[1] is True)(fp_.is_null_assumption(cn, t)) for cn, t, _ in p.assume):
+                return True
+        if e.name == 'strpbrk' and len(e.args) > 1 and e.args[1][0] == 'str' and chr(b) in e.args[1][1]:
+            if any((lambda na: na is not None and na[0] == e.res and na[1] is True)(fp_.is_null_assumption(cn, t)) for cn, t, _ in p.assume):
+                return True
+        if e.name == 'strcspn' and len(e.args) > 1 and e.args[1][0] == 'str' and chr(b) in e.args[1][1]:
+            for cn, t, _ in p.assume:
+                if cn[0] == 'icmp' and cn[1] in ('eq', 'ne') and sym.C0 in (cn[2], cn[3]) and ((cn[1] == 'eq') == t) and \
+                        sym.mentions(cn, lambda v: v[0] == 'ld' and sym.mentions(v, lambda w: w == e.res)):
+                    return True
+    return False
+
+
 def run(c, chk):
     chk.explanation = EXPLANATION
     chk.rule('R5.1', 'every byte the reader treats specially inside "..." is escaped by the value printer, and the escape decodes to that byte')
-    chk.rule('R5.2', 'no print format places an unescaped %s between double quotes')
+    chk.rule('R5.2', 'no print format places an unescaped %s between double quotes, nor between single quotes unless the value was shown free of the bytes the reader decodes there')
     chk.rule('R5.3', 'the annotation writer cannot emit the comment terminator inside the comment body')
     chk.trusted = ['flex tables', 'clang/opt IR']
     chk.assumptions = ['equality of re-parsed values, list lengths and float precision are not decided']
@@ -168,6 +188,14 @@ def run(c, chk):
     chk.floor('R5.1 reader-special bytes', len(special), 2)
 
     # ---- R5.2 ---------------------------------------------------------------------------------
+    Ksq = {r: lexmodel.classify(lex, r) for r in lex.actions}
+
+    def is_literal_sq(r):
+        ks = set(re.sub(r'\+line[0-9*]*', '', k) for k in Ksq.get(r, ['?']))
+        return ks <= literal or ks == {'const(10)'}
+    special_sq = dfa.first_bytes('sq_str', lambda r: not is_literal_sq(r))
+    special_sq.pop(0, None)
+    chk.analysed['reader_special_bytes_single_quoted'] = sorted(chr(b) if 32 <= b < 127 else '\\x%02x' % b for b in special_sq)
     nfmt = 0
     nprinters = 0
     ex2 = sym.Explorer(c.modules, max_visits=2, mod_sets=c.mod_sets, max_paths=200000)
@@ -176,6 +204,7 @@ def run(c, chk):
             continue
         nprinters += 1
         hit = None
+        hit_sq = None
         for p in ex2.explore(f):
             if p.end != 'ret':
                 continue
@@ -186,6 +215,27 @@ def run(c, chk):
                 k = index[m.start() + m.group(0).index('%s')]
                 hit = (toks[k], m.group(0))
                 break
+        # the same between single quotes: '...' is raw for every byte except the ones the reader decodes there (from the DFA:
+        # the backslash and the quote).  A path may write a value so only when it has shown that the value holds none of them
+        for p in ex2.explore(f):
+            if p.end != 'ret' or hit_sq is not None:
+                continue
+            toks = outmodel.tokens(p.events, calls=PRINT_CALLS)
+            text, index = outmodel.render(toks)
+            for m in re.finditer(r"'[^'\x00]*%s[^'\x00]*'", text):
+                t = toks[index[m.start() + m.group(0).index('%s')]]
+                val = sym.norm(outmodel._strip(t[2]))
+                missing = [b for b in sorted(special_sq) if not _shown_absent(p, val, b)]
+                if missing:
+                    hit_sq = (t, m.group(0), missing)
+                    break
+        if hit_sq:
+            nfmt += 1
+            t, frag, missing = hit_sq
+            chk.fail('R5.2', 'raw-single-quoted:%s' % f.name, c.where(t[-1].ins),
+                     '%s() writes %s as a raw %%s between single quotes (%r) on a path that has not shown the value to be free of %s: inside \'...\' the reader '
+                     'decodes these (a doubled backslash reads back as one, backslash-newline disappears, a quote ends the string)'
+                     % (f.name, sym.render(t[2]), frag, ', '.join(repr(chr(b)) for b in missing)))
         if hit:
             nfmt += 1
             t, frag = hit
